@@ -10,12 +10,12 @@
    ErrDecimal: once an error is held every later call leaves all registers and flags untouched, for any
    program (induction over the method sequence); otherwise the wrapper performs exactly the Context
    operation of the same name and accumulates its flags.
-   Sqrt and Cbrt (modelled in full, Model/Roots.v): the two theorems before the ErrDecimal block.  Exp, Ln,
-   Log10 and Pow are not modelled beyond their prologues: for them the property is decided by the trap
+   Sqrt, Cbrt (modelled in full, Model/Roots.v) and Exp (Model/Exp.v, the float-derived integers as inputs): the
+   three theorems before the ErrDecimal block.  Ln, Log10 and Pow are not modelled beyond their prologues: for them the property is decided by the trap
    differential on the implementation (same call with and without the trap set) and by the
    reference-interpreter comparison of ErrDecimal programs. *)
 From Coq Require Import ZArith Bool List.
-From Apd Require Import Generated.Consts Model.Base Model.NumDigits Model.Decimal Model.Context Model.ErrDec Proofs.TrapsProofs Model.Roots Proofs.RootsTraps.
+From Apd Require Import Generated.Consts Model.Base Model.NumDigits Model.Decimal Model.Context Model.ErrDec Proofs.TrapsProofs Model.Roots Model.Exp Proofs.RootsTraps Proofs.ExpTraps.
 Open Scope Z_scope.
 
 Theorem C03_error_nil_iff traps r : go_error traps r = ENone <->
@@ -81,6 +81,14 @@ Theorem C03_sqrt_nil_error_means_untrapped_result est c x r : ctx_sqrt est c x =
   strip (ctx_sqrt est (with_traps c c0) x) = Ok (rdec r, rcond r).
 Proof. exact (sqrt_untrapped est c x r). Qed.
 Print Assumptions C03_sqrt_nil_error_means_untrapped_result.
+
+(* Exp (Model/Exp.v), for EVERY value of the two integers the code derives from float64 arithmetic: the series and
+   the power run under an ErrDecimal with the caller's traps; a call that returns no error returns the value and the
+   Condition of the call with an empty trap set *)
+Theorem C03_exp_nil_error_means_untrapped_result est cp n c x r : ctx_exp_with est cp n c x = Ok r -> rerr r = ENone ->
+  strip (ctx_exp_with est cp n (with_traps c c0) x) = Ok (rdec r, rcond r).
+Proof. exact (exp_untrapped est cp n c x r). Qed.
+Print Assumptions C03_exp_nil_error_means_untrapped_result.
 
 (* ErrDecimal over arbitrary method sequences *)
 Theorem C03_errdecimal_sticky est c p s : ed_err s <> ENone -> ed_run est c s p = Ok s.
